@@ -7,9 +7,14 @@ variants), the same configuration and seed is run under the SingleProcessMediato
 harness replaces `multiprocessing.connection` inside multi_process_mediator by a shim whose `wait` blocks until every in-flight
 pipe is readable and then returns a seeded ordered sub-list, so the order in which worker results reach the mediator is an
 adversarial, replayable choice. Compared leg by leg, bit for bit: committed handler, candidate times, out-state, whole global
-state, trash list, samples. After post_run no worker process may be alive; a run that does not finish in time is a deadlock."""
+state, trash list, samples. After post_run no worker process may be alive; a run that does not finish in time is a deadlock.
+
+Trace validation (harness/c20model.py): every recorded multi-process run is replayed through the Lean protocol model
+(lean/JF/Model/MPMediator.lean, the object of the theorems in JF.Props.C20) with the recorded activator output, `wait` results,
+chosen handler and trash list; stages and `_out_states` keys at commit time, the stages seen at each wait and the push order must
+agree leg by leg."""
 import os
-from harness import runs
+from harness import runs, c20model
 
 ID = "C20"
 THEOREM_MODULES = ["JF.Props.C20"]
@@ -113,5 +118,18 @@ def run(ctx):
         if tr.get("children_alive_after_post_run"):
             ctx.fail("C20:worker-processes-left-behind", {**base, "alive": tr["children_alive_after_post_run"]},
                      "worker processes are still alive after post_run")
+        # trace validation against the Lean model of the protocol
+        st = c20model.validate(ctx, tr, base)
+        ctx.count("mp-model:legs-replayed", st["legs"])
+        ctx.count("mp-model:legs-with-pre-computation", st["legs_with_precomputation"])
+        ctx.count("mp-model:pre-computations-started", st["precomputations"])
+        ctx.count("mp-model:pre-computed-out-states-discarded", st["discarded"])
+        ctx.count("mp-model:commit-used-stored-pre-computed-out-state", st["used_stored"])
+        ctx.count("mp-model:commit-used-pre-computation-in-flight", st["used_in_flight"])
+        ctx.count("mp-model:handler-legs-in-out_state_started-across-a-leg-boundary", st["in_flight_across_legs"])
+        if st["end_quiet"] is not None:
+            ctx.count("mp-model:runs-ending-with-all-workers-blocked-and-pipes-empty" if st["end_quiet"]
+                      else "mp-model:runs-ending-with-an-unread-pre-computation", 1)
+        ctx.cls(("model", job["mp"]["cores"], st["precomputations"] > 0, st["discarded"] > 0, st["used_stored"] > 0, st["used_in_flight"] > 0))
         ctx.sample({**{k: v for k, v in base.items() if k != "overrides"}, "legs": len(tr["legs"]), "end": tr["end"], "waits": tr.get("n_waits"),
-                    "wait_states": ws, "schedule_head": tr.get("schedule", [])[:6]})
+                    "wait_states": ws, "model": st, "schedule_head": tr.get("schedule", [])[:6]})
